@@ -116,6 +116,15 @@ class Model:
                 return ("remove-" + r, "")
             if (nm in NON_ATOMIC_COPY or nm.startswith("unzip")) and "dst" in roles:
                 return ("copy", nm)
+            # a function of the package that is handed the destination (or a marker) and deletes things: an effect the table
+            # does not describe
+            if roles and any(r_ in ("dst", "start", "end") for r_ in roles) and isinstance(f, (ast.Name, ast.Attribute)):
+                r_ = self.prog.resolve_expr(self.fi.module, f) if hasattr(self.prog, "resolve_expr") else None
+                if r_ and r_[0] == "func":
+                    body_calls = {getattr(y.func, "attr", getattr(y.func, "id", "")) for y in ast.walk(r_[1].node)
+                                  if isinstance(y, ast.Call)}
+                    if body_calls & {"rmtree", "unlink", "remove", "rmdir", "removedirs", "rename", "replace", "move"}:
+                        return ("unknown-destructive", nm)
         return None
 
 
@@ -340,6 +349,42 @@ def run(prog: Program, rep: Report, tier: str):
              "every path: create-start, then copy, then create-end)")
     rep.rule("I5.twins-agree", "copy_folder_from_global_to_local and copy_imagefolder_from_global_to_local have the same "
              "abstraction: for every persistent state the same effects and the same was_copied / was_deleted")
+    rep.rule("I6.worker-errors-propagate", "in kappadata/copying the results of parallel extraction jobs are consumed: the iterator "
+             "returned by an executor's map() is iterated (or turned into a list), futures returned by submit() have result() / "
+             "as_completed applied - a lazily evaluated map whose result is dropped swallows every exception of the workers, so a "
+             "failed extraction is followed by the end marker")
+    n_par = 0
+    for relp in sorted(p_ for p_ in prog.by_relpath if p_.startswith("kappadata/copying/")):
+        for fi_ in [f_ for f_ in prog.raw.all_functions() if f_.module.relpath == relp]:
+            execs = set()
+            for y in ast.walk(fi_.node):
+                if isinstance(y, ast.withitem) and isinstance(y.context_expr, ast.Call) and isinstance(y.optional_vars, ast.Name):
+                    cn = getattr(y.context_expr.func, "attr", getattr(y.context_expr.func, "id", ""))
+                    if cn.endswith("Executor") or cn in ("Pool", "ThreadPool"):
+                        execs.add(y.optional_vars.id)
+                if isinstance(y, ast.Assign) and isinstance(y.value, ast.Call) and len(y.targets) == 1 and isinstance(y.targets[0], ast.Name):
+                    cn = getattr(y.value.func, "attr", getattr(y.value.func, "id", ""))
+                    if cn.endswith("Executor") or cn in ("Pool", "ThreadPool"):
+                        execs.add(y.targets[0].id)
+            if not execs:
+                continue
+            for st in ast.walk(fi_.node):
+                if isinstance(st, ast.Expr) and isinstance(st.value, ast.Call) and isinstance(st.value.func, ast.Attribute) and \
+                        isinstance(st.value.func.value, ast.Name) and st.value.func.value.id in execs and \
+                        st.value.func.attr in ("map", "submit", "imap", "imap_unordered", "apply_async", "map_async"):
+                    n_par += 1
+                    o_ = rep.bad("I6.worker-errors-propagate", fi_, f"dropped:{st.value.func.attr}", f"the result of "
+                                 f"{st.value.func.value.id}.{st.value.func.attr}(...) (line {st.lineno}) is dropped: exceptions raised in "
+                                 f"the workers are never re-raised, a failed extraction looks like a finished one and the end marker is "
+                                 f"written over incomplete data", line=st.lineno, clause="C20.I1")
+                elif isinstance(st, (ast.For, ast.Assign, ast.Return)) and any(
+                        isinstance(y, ast.Call) and isinstance(y.func, ast.Attribute) and isinstance(y.func.value, ast.Name)
+                        and y.func.value.id in execs and y.func.attr in ("map", "submit", "imap", "imap_unordered")
+                        for y in ast.walk(st.iter if isinstance(st, ast.For) else st.value) if st is not None and (
+                            isinstance(st, ast.For) or st.value is not None)):
+                    n_par += 1
+                    rep.ok("I6.worker-errors-propagate", fi_, "consumed", "the results of the parallel jobs are consumed",
+                           line=st.lineno, clause="C20.I1", nontrivial=False)
     summaries = {}
     for rel, fname in FUNCS:
         # the unzip helpers are effects of the table (COPY into the destination), not code to look into
@@ -348,6 +393,14 @@ def run(prog: Program, rep: Report, tier: str):
         m = Model(progk, fi)
         rep.require(m.dst and m.start and m.end, f"anchor-missing: destination / marker paths in {fname}")
         kinds = sorted({k[0] for k in m.kind.values()})
+        unknown_ = sorted({k[1] for k in m.kind.values() if k[0] == "unknown-destructive"})
+        if unknown_:
+            for rule_ in ("I1.usable-on-return", "I2.completed-copy-stable", "I3.truthful-result", "I4.marker-order"):
+                rep.unk(rule_, fi, "effects", f"the destination is handed to {', '.join(unknown_)}(), a package function that deletes "
+                        f"files and is not in the effect table: what a crash inside it leaves behind is not modelled - not decided",
+                        clause="C20." + rule_.split(".")[0])
+            summaries[fname] = ("unknown", tuple(unknown_))
+            continue
         rep.require({"mkdir", "create-start", "create-end", "copy"} <= set(kinds),
                     f"anchor-missing: file-system effects in {fname} (found {kinds})")
         rep.analysed_add("functions", f"{rel}:{fname}")
@@ -410,6 +463,14 @@ def run(prog: Program, rep: Report, tier: str):
                             for s, r in runs.items()}
         rep.floor(f"persistent states in the crash closure of {fname}", len(runs), 5)
     a, b = [summaries[f] for _, f in FUNCS]
+    if isinstance(a, tuple) or isinstance(b, tuple):
+        rep.decide(None if (isinstance(a, tuple) and isinstance(b, tuple) and a == b) else (False if isinstance(a, tuple) != isinstance(
+            b, tuple) else None), "I5.twins-agree", prog.func(*FUNCS[1]), "summary", "", "one twin hands the destination to a "
+                   "deleting helper the other does not use (or both use helpers that are not modelled): not decided" if isinstance(
+                       a, tuple) == isinstance(b, tuple) else "only one of the two copy functions hands the destination to a deleting "
+                   "helper: the twins no longer clean up in the same way", clause="C20.I5")
+        names.check(prog, rep, FILES, clause="C20.G1", floor=8)
+        return
     rep.decide(a == b, "I5.twins-agree", prog.func(*FUNCS[1]), "summary", f"equal abstractions over {len(a)} persistent states",
                "the two copy functions behave differently on some persistent state: " + "; ".join(
                    f"{k}: {a.get(k)} vs {b.get(k)}" for k in sorted(set(a) | set(b)) if a.get(k) != b.get(k))[:300],
